@@ -1,4 +1,7 @@
+#[cfg(not(prqlc_verif))]
 use std::collections::{HashMap, HashSet};
+#[cfg(prqlc_verif)]
+use prqlc_parser::verif_hash::{HashMap, HashSet};
 
 use super::{
     NS_DEFAULT_DB, NS_INFER, NS_INFER_MODULE, NS_MAIN, NS_PARAM, NS_QUERY_DEF, NS_SELF, NS_STD,
